@@ -49,7 +49,7 @@ fn app() -> App<()> {
         .with_stateless_route("/big*", |_r: Request| async { Response::new(StatusCode::OK, vec![b'x'; 6 * 1024 * 1024]) })
         .with_cors_config(
             "/cors*",
-            Cors::new().with_origin("https://a.example").with_method(Method::Get).with_method(Method::Post).with_header("X-H"),
+            Cors::new().with_origin("https://a.example").with_origin("https://b.example").with_method(Method::Get).with_method(Method::Post).with_header("X-H").with_header("X-I"),
         )
 }
 
